@@ -896,10 +896,15 @@ func (w *ledgerWorld) step(prev *ledgerSnap, kinds map[string]int) *ledgerSnap {
 		if forcedAmt > 0 {
 			x = sdkmath.NewInt(forcedAmt)
 		}
-		err := c.CachedDo(func(ctx sdk.Context) error {
-			return c.App.AssetsKeeper.PerformDepositOrWithdraw(ctx, &assetskeeper.DepositWithdrawParams{
-				ClientChainLzID: c.LzID, Action: assetstypes.DepositLST, StakerAddress: st.Eth.Bytes(), AssetsAddress: w.assetAddr(ai), OpAmount: x})
-		})
+		var err error
+		if w.usePC(c.LzID, &x) { // through the assets precompile, as the gateway (dom_ledger_precompile.go)
+			err = w.pcDepositOrWithdraw(true, st.Eth.Bytes(), w.assetAddr(ai), x)
+		} else {
+			err = c.CachedDo(func(ctx sdk.Context) error {
+				return c.App.AssetsKeeper.PerformDepositOrWithdraw(ctx, &assetskeeper.DepositWithdrawParams{
+					ClientChainLzID: c.LzID, Action: assetstypes.DepositLST, StakerAddress: st.Eth.Bytes(), AssetsAddress: w.assetAddr(ai), OpAmount: x})
+			})
+		}
 		finish("deposit", fmt.Sprintf("ledger.deposit %s %s %s", sid, asset, x), err, map[string]*big.Int{asset: x.BigInt()})
 	case 1: // withdraw
 		var near *big.Int
@@ -910,10 +915,15 @@ func (w *ledgerWorld) step(prev *ledgerSnap, kinds map[string]int) *ledgerSnap {
 		if forcedKind >= 0 && forcedAmt == -1 && near != nil { // scripted: exactly the withdrawable balance
 			x = sdkmath.NewIntFromBigInt(near)
 		}
-		err := c.CachedDo(func(ctx sdk.Context) error {
-			return c.App.AssetsKeeper.PerformDepositOrWithdraw(ctx, &assetskeeper.DepositWithdrawParams{
-				ClientChainLzID: c.LzID, Action: assetstypes.WithdrawLST, StakerAddress: st.Eth.Bytes(), AssetsAddress: w.assetAddr(ai), OpAmount: x})
-		})
+		var err error
+		if w.usePC(c.LzID, &x) {
+			err = w.pcDepositOrWithdraw(false, st.Eth.Bytes(), w.assetAddr(ai), x)
+		} else {
+			err = c.CachedDo(func(ctx sdk.Context) error {
+				return c.App.AssetsKeeper.PerformDepositOrWithdraw(ctx, &assetskeeper.DepositWithdrawParams{
+					ClientChainLzID: c.LzID, Action: assetstypes.WithdrawLST, StakerAddress: st.Eth.Bytes(), AssetsAddress: w.assetAddr(ai), OpAmount: x})
+			})
+		}
 		finish("withdraw", fmt.Sprintf("ledger.withdraw %s %s %s", sid, asset, x), err, map[string]*big.Int{asset: new(big.Int).Neg(x.BigInt())})
 		w.monitorWithdraw(prev, sid, asset, x, err)
 	case 2: // delegate
@@ -936,10 +946,16 @@ func (w *ledgerWorld) step(prev *ledgerSnap, kinds map[string]int) *ledgerSnap {
 		if forcedAmt > 0 {
 			x = sdkmath.NewInt(forcedAmt)
 		}
-		err := c.CachedDo(func(ctx sdk.Context) error {
-			return c.App.DelegationKeeper.DelegateTo(ctx, &delegationtypes.DelegationOrUndelegationParams{
-				ClientChainID: lz, AssetsAddress: aaddr, OperatorAddress: op, StakerAddress: saddr, OpAmount: x})
-		})
+		var err error
+		if w.usePC(lz, &x) {
+			w.nonce++
+			err = w.pcDelegate(false, w.nonce, saddr, aaddr, op, x)
+		} else {
+			err = c.CachedDo(func(ctx sdk.Context) error {
+				return c.App.DelegationKeeper.DelegateTo(ctx, &delegationtypes.DelegationOrUndelegationParams{
+					ClientChainID: lz, AssetsAddress: aaddr, OperatorAddress: op, StakerAddress: saddr, OpAmount: x})
+			})
+		}
 		finish("delegate", fmt.Sprintf("ledger.delegate %s %s %s %s", sid, asset, op, x), err, nil)
 	case 3, 4: // undelegate: prefer an existing delegation
 		var cands []string
@@ -985,11 +1001,17 @@ func (w *ledgerWorld) step(prev *ledgerSnap, kinds map[string]int) *ledgerSnap {
 		nonce := w.nonce
 		w.nonce++
 		hash := common.BytesToHash(detBytes(uint64(nonce), "tx", int(c.Header.Height)))
-		err := c.CachedDo(func(ctx sdk.Context) error {
-			return c.App.DelegationKeeper.UndelegateFrom(ctx, &delegationtypes.DelegationOrUndelegationParams{
-				ClientChainID: lz, AssetsAddress: aaddr, OperatorAddress: op, StakerAddress: saddr, OpAmount: x,
-				LzNonce: nonce, TxHash: hash})
-		})
+		var err error
+		if w.usePC(lz, &x) { // the record is keyed by the hash of the EVM transaction
+			hash = xbNextTxHash()
+			err = w.pcDelegate(true, nonce, saddr, aaddr, op, x)
+		} else {
+			err = c.CachedDo(func(ctx sdk.Context) error {
+				return c.App.DelegationKeeper.UndelegateFrom(ctx, &delegationtypes.DelegationOrUndelegationParams{
+					ClientChainID: lz, AssetsAddress: aaddr, OperatorAddress: op, StakerAddress: saddr, OpAmount: x,
+					LzNonce: nonce, TxHash: hash})
+			})
+		}
 		held := 0
 		if err == nil {
 			rk := delegationtypes.GetUndelegationRecordKey(uint64(c.Header.Height), nonce, hash.String(), op.String())
@@ -1034,14 +1056,24 @@ func (w *ledgerWorld) step(prev *ledgerSnap, kinds map[string]int) *ledgerSnap {
 				}
 			}
 		}
-		err := c.CachedDo(func(ctx sdk.Context) error {
-			return c.App.DelegationKeeper.AssociateOperatorWithStaker(ctx, lz, op, saddr)
-		})
+		var err error
+		if w.usePC(lz, nil) {
+			err = w.pcAssociate(saddr, op)
+		} else {
+			err = c.CachedDo(func(ctx sdk.Context) error {
+				return c.App.DelegationKeeper.AssociateOperatorWithStaker(ctx, lz, op, saddr)
+			})
+		}
 		finish("associate", fmt.Sprintf("ledger.associate %s %s", sid, op), err, nil)
 	case 6: // dissociate
-		err := c.CachedDo(func(ctx sdk.Context) error {
-			return c.App.DelegationKeeper.DissociateOperatorFromStaker(ctx, lz, saddr)
-		})
+		var err error
+		if w.usePC(lz, nil) {
+			err = w.pcDissociate(saddr)
+		} else {
+			err = c.CachedDo(func(ctx sdk.Context) error {
+				return c.App.DelegationKeeper.DissociateOperatorFromStaker(ctx, lz, saddr)
+			})
+		}
 		finish("dissociate", "ledger.dissociate "+sid, err, nil)
 	case 7: // slash an operator through the real operator keeper
 		if forcedKind < 0 {
